@@ -13,6 +13,17 @@ Streams
   parse   : hand-made SWC text (interleaved comments, blank lines, extra columns, delimiters, meta lines in odd places).
   nanrow  : SWC text with NaN in a key column (id / parent / x / y / z): rows dropped, orphans re-rooted (DESIGN §6 #15, fixed).
   small   : (thorough) every forest on ≤ 5 labelled nodes.
+  header  : the `header=` option of write_swc crossed with the other write options: None / single line / several lines / with and
+            without final line break / CRLF / blank lines / a Meta line first, in the middle, last (with and without line break) /
+            empty string / non-ASCII text; the bytes are compared with the character-level model (`SwcText.assemble`: header verbatim,
+            newline-terminated, rows `str(k) …\r\n`), the Lean reader model must find exactly the rows (`dataLines`), and the usual
+            validity / round-trip oracles run on the file.  Headers with a line that is neither `#…` nor blank are the open finding
+            `write_swc/custom-header/line-without-comment-prefix`.
+  many    : NeuronLists written to a folder / a `{neuron.…}` pattern / a zip / `pattern@zip` / a list of paths / a single neuron to a
+            folder or zip, with the write options; every produced file is judged like a single write; the folder / archive is read
+            back with the matching `fmt`.
+  readopt : `limit` (int / slice / substring / regex / list), `include_subdirs`, hidden and foreign files for folder / zip / tar.
+  bigid   : hand-made tables with ids beyond int16 / int32 read at every precision (dtype table of `base.parse_precision`).
 """
 import io, os, json, math, shutil, tarfile, tempfile, warnings, zipfile, itertools, random, pathlib
 from fractions import Fraction
@@ -139,7 +150,20 @@ def write_kwargs(case):
     else:
         kw['write_meta'] = wm      # single key
     kw['return_node_map'] = bool(o.get('nodemap', True))
+    if o.get('header') is not None:
+        kw['header'] = o['header']
     return kw
+
+
+def header_lines(h):
+    """Physical lines of a custom header after `_write_swc` terminated it (what `SwcText.lines (terminate h)` is)."""
+    t = h if h.endswith('\n') else h + '\n'
+    return t.split('\n')[:-1]
+
+
+def header_ok(h):
+    """Every physical line is a `#` line or empty up to carriage returns."""
+    return all(l.startswith('#') or l.strip('\r') == '' for l in header_lines(h))
 
 
 def soma_list(x):
@@ -168,8 +192,10 @@ def wire_opts(case, x):
     r = case.get('read', {})
     sl = r.get('soma_label', 1)
     cl = r.get('conn', [])
+    h = o.get('header')
+    hs = 'none' if h is None else 'c:' + ','.join(str(ord(c)) for c in h)
     return (f"labels={lbs} export={int(bool(o.get('export')))} meta={wms} soma={'N' if sl is None else sl} "
-            f"conn={','.join(f'{n}:{v}' for n, v in cl)} readmeta={int(r.get('read_meta', True))} delim={r.get('delim', 'space')}")
+            f"conn={','.join(f'{n}:{v}' for n, v in cl)} readmeta={int(r.get('read_meta', True))} delim={r.get('delim', 'space')} hdrtext={hs}")
 
 
 def wire_skel(x):
@@ -203,7 +229,7 @@ def file_payload(path):
     lines = text.split('\n')
     if lines and lines[-1] == '':
         lines = lines[:-1]
-    return text, SEP.join(lines)
+    return text, SEP.join(lines + ['$'])     # the final `$` piece protects trailing blanks / \r of the last line from the protocol's trim
 
 
 def table_of(n):
@@ -292,6 +318,13 @@ def case_write(ctx, case):
     ctx.oracle(tbl.get('wf') == '1', 'generated skeleton is not a well-formed forest (generator bug)', case)
     ctx.oracle(tbl.get('valid') == '1', 'model: makeSwcTable produced an invalid table (contradicts table_valid)', case)
     ctx.corr(tbl.get('histvalid'), tbl.get('cond'), 'model: historical ordering valid vs its condition (historical_sortByParent_valid_iff)', case)
+    ctx.corr(tbl.get('asw'), '1', 'model: the table as written (sequential label assignments + memoised _node_depths) differs from makeSwcTable '
+             '(contradicts table_as_written)', case)
+    # `_node_depths` as written vs navis on the implementation's own arrays
+    nd_ = x.nodes
+    impl_d = [int(v) for v in swc_io._node_depths(nd_.node_id.values, nd_.parent_id.values)]
+    ctx.corr(dense_rank(impl_d), dense_rank((tbl.get('depthsw') or '').split(',') if tbl.get('depthsw') else []),
+             '_node_depths(node_id, parent_id) vs the Lean model of the loop as written (nodeDepthsW), as sort keys (dense ranks)', case)
     with Tmp() as d:
         path = os.path.join(d, case.get('fname', 'nrn.swc'))
         try:
@@ -316,145 +349,245 @@ def case_write(ctx, case):
             ctx.oracle(ret is None, f'return_node_map=False returned {type(ret).__name__}', case)
             _, m2 = swc_io.make_swc_table(x, labels=kw['labels'], export_connectors=kw['export_connectors'], return_node_map=True)
             nmap = {int(k): int(v) for k, v in m2.items()}
-        text, payload = file_payload(path)
-        map_s = ','.join(f'{k}>{v}' for k, v in nmap.items())
-        resp = fields(ctx.ask(f'c07.file {opts_s} | {nodes_s} | {extra_s} | {attrs_s} | {map_s} |{payload}'))
-        n = len(pm0)
-        cond = resp.get('cond') == '1'
-        # --- the file is an SWC table ------------------------------------------------------------
-        ctx.oracle(resp.get('parse') == '1', 'the written file does not parse as an SWC table', case)
-        ctx.oracle(resp.get('ncols') == '7', f'the written file has {resp.get("ncols")} columns, not seven', case)
-        if resp.get('parse') != '1':
-            return
-        valid = resp.get('valid') == '1'
-        # theorem sortByParent_valid_iff says exactly when the as-written ordering is valid
-        is_sorted = resp.get('sorted') == '1'
-        if not valid:
-            bad_kind, bad_txt = _first_bad(resp.get('rows', ''))
-            ctx.oracle(False, 'written SWC table is not valid (ids 1..N, roots -1, every parent listed before and numbered '
-                       'lower than its children): ' + bad_txt, case)
-        else:
-            ctx.oracle(True, 'valid', case)
-        # --- correspondence with the model -----------------------------------------------------------
-        ctx.corr(resp.get('sorted'), '1', 'write_swc: file order is not ascending by depth (steps to the root)', case)
-        ctx.corr(resp.get('stable'), '1', 'write_swc: file order differs from the stable sort by depth of the node table', case)
-        ctx.count('order_kind', 'depth-sort' if is_sorted else ('parent-first' if valid else 'other'))
-        ctx.count('historical_order_would_be', 'valid' if cond else 'invalid')
-        for key, what in (('mapok', 'node map is not a bijection of the node ids onto 1..N'),
-                          ('agree', 'file rows differ from the model table (labels / ids / parent remap / radius fill / columns)'),
-                          ('mapagree', 'returned node map differs from the model map for the same order'),
-                          ('hdr', 'header (comment lines / Meta line) differs from the model header'),
-                          ('rt', 'model write → parse does not reproduce the file rows')):
-            ctx.corr(resp.get(key), '1', f'write_swc: {what}', case)
-        rows = [r.split(':') for r in resp.get('rows', '').split()]
-        # --- read back -----------------------------------------------------------------------------------
-        r = case.get('read', {})
-        prec = r.get('precision', 32)
-        rkw = dict(connector_labels=dict(r.get('conn', [])), soma_label=r.get('soma_label', 1), precision=prec,
-                   read_meta=r.get('read_meta', True))
+        judge_file(ctx, case, x, kw, nmap, path, d)
+
+
+def judge_file(ctx, case, x, kw, nmap, path, d, report=None):
+    """Everything that is decided on one written file: the bytes against the Lean parser / character-level model / checkers,
+    `read_swc` of the file against `readBack`, the round trip under the node map, header metadata, sources."""
+    rc = report if report is not None else case      # the case recorded with a failure (the whole NeuronList case for the `many` stream)
+    o = case['opts']
+    nodes_s, extra_s, attrs_s = wire_skel(x)
+    opts_s = wire_opts(case, x)
+    has_conn = isinstance(x.connectors, pd.DataFrame)
+    pm0 = {int(i): int(p) for i, p in zip(x.nodes.node_id.values, x.nodes.parent_id.values)}
+    text, payload = file_payload(path)
+    map_s = ','.join(f'{k}>{v}' for k, v in nmap.items())
+    resp = fields(ctx.ask(f'c07.file {opts_s} | {nodes_s} | {extra_s} | {attrs_s} | {map_s} |{payload}'))
+    n = len(pm0)
+    cond = resp.get('cond') == '1'
+    hdr = o.get('header')
+    ctx.count('header_option', header_class(hdr))
+    # --- the text: header (generated as the source spells it / the user's string verbatim, newline-terminated), then one `k …\r` line per row
+    ctx.corr(resp.get('textok'), '1', 'write_swc: the text of the file is not <header, newline-terminated> followed by one line per table row '
+             '(character-level model SwcText.assemble / generated header lines of the source)', rc)
+    if hdr is not None and not header_ok(hdr):
+        # a header line that is neither a comment nor blank is written verbatim and read as data (open finding)
+        ctx.corr(resp.get('hdrok'), '0', 'custom header: model and harness disagree on whether every header line is a comment', rc)
         try:
-            z = navis.read_swc(path, **rkw)
-        except Exception as e:
-            ctx.oracle(False, f'read_swc of the written file raised {type(e).__name__}: {str(e)[:120]}', case)
-            return
-        tol = tol_for(prec)
-        if case.get('f32'):
-            tol = max(tol, tol_for(32))
-        zt = table_of(z)
-        # reader vs Lean readBack on the same bytes
-        ok = len(zt) == len(rows)
-        if ok:
-            for a, b in zip(zt, rows):
-                if a[0] != int(b[0]) or a[1] != int(b[6]):
-                    ok = False
-                if not all(close(a[2 + j], frac(b[2 + j]), tol) for j in range(3)):
-                    ok = False
-                if not close(a[5], frac(b[5]), tol):
-                    ok = False
-                if not label_ok(a[6], b[1], resp.get('labint') == '1'):
-                    ok = False
-        ctx.oracle(ok, 'read_swc node table differs from the table in the file (ids / parents / label values / coordinates / radius)', case)
-        zs = z.soma
-        zs_s = 'nan' if zs is None else str(int(navis.utils.make_iterable(zs)[0]))
-        # without a row carrying `soma_label` navis falls back to find_soma (label 1 / radius), which is not part of the reader model
-        if resp.get('soma') != 'nan' or rkw['soma_label'] == 1:
-            ctx.corr(zs_s, resp.get('soma'), 'read_swc soma vs readBack soma', case)
-        if rkw['connector_labels']:
-            zc = z.connectors
-            got = ','.join(f'{t}:{int(i)}' for t, i in zip(zc['type'].values, zc['node_id'].values)) if isinstance(zc, pd.DataFrame) else 'None'
-            ctx.corr(got, resp.get('conns'), 'read_swc connectors vs readBack connectors', case)
-        props = dict(p.split('=', 1) for p in resp.get('props', '').split(';') if '=' in p)
-        # --- the round trip under the node map --------------------------------------------------------------
-        inv = {v: k for k, v in nmap.items()}
-        ctx.oracle(sorted(nmap) == sorted(pm0) and sorted(inv) == list(range(1, n + 1)),
-                   'node map is not a bijection from the node ids onto 1..N', case)
-        zp = {a[0]: a for a in zt}
-        ok_par = ok_xyz = ok_rad = True
-        ndx = x.nodes
-        for k in range(n):
-            i = int(ndx.node_id.values[k]); p = int(ndx.parent_id.values[k])
-            a = zp.get(nmap.get(i))
-            if a is None:
-                ok_par = False
-                break
-            want = nmap.get(p, -1) if p >= 0 else -1
-            if a[1] != want:
-                ok_par = False
-            for j, col in enumerate(('x', 'y', 'z')):
-                if not close(a[2 + j], Fraction(float(ndx[col].values[k])), tol):
-                    ok_xyz = False
-            rad = float(ndx.radius.values[k])
-            if not close(a[5], Fraction(0) if math.isnan(rad) else Fraction(rad), tol):
-                ok_rad = False
-        ctx.oracle(ok_par, 'round trip: parent links differ under the node map', case)
-        ctx.oracle(ok_xyz, f'round trip: coordinates differ (precision {prec})', case)
-        ctx.oracle(ok_rad, f'round trip: radii differ (NaN is written as 0) (precision {prec})', case)
-        if o.get('labels', 'auto') == 'auto' and rkw['soma_label'] == 1:
-            somas = soma_list(x)
-            exp_pre = set(int(v) for v in x.presynapses.node_id.values) if (has_conn and o.get('export')) else set()
-            exp_post = set(int(v) for v in x.postsynapses.node_id.values) if (has_conn and o.get('export')) else set()
-            eff = [s for s in somas if s not in exp_pre and s not in exp_post]
-            if somas and not eff:
-                ctx.count('soma', 'overridden-by-synapse-label')
-            elif eff:
-                want = min(nmap[s] for s in eff)
-                ctx.count('soma', 'single' if len(somas) == 1 else 'several')
-                ctx.oracle(zs is not None and int(navis.utils.make_iterable(zs)[0]) == want,
-                           f'round trip: soma {somas} comes back as {zs} (expected new id {want})', case)
-            else:
-                ctx.count('soma', 'none')
-                ctx.oracle(zs is None, f'round trip: skeleton without soma comes back with soma {zs}', case)
-            if o.get('export') and dict(r.get('conn', [])) == {'pre': 7, 'post': 8}:
-                zc = z.connectors
-                gpre = sorted(int(i) for t, i in zip(zc['type'].values, zc['node_id'].values) if t == 'pre')
-                gpost = sorted(int(i) for t, i in zip(zc['type'].values, zc['node_id'].values) if t == 'post')
-                ctx.oracle(gpost == sorted(nmap[i] for i in exp_post), 'round trip: postsynapse labels not preserved', case)
-                ctx.oracle(gpre == sorted(nmap[i] for i in exp_pre - exp_post),
-                           'round trip: presynapse labels not preserved (nodes without a postsynapse)', case)
-                ctx.count('connectors_exported', 'yes')
-        # --- header meta: units and id -----------------------------------------------------------------------
-        wm = o.get('meta', 'default')
-        keys = ['id', 'name', 'units'] if wm == 'default' else (wm if isinstance(wm, list) else ([] if wm == 'off' or isinstance(wm, dict) else [wm]))
-        if rkw['read_meta']:
-            if 'units' in keys:
-                aniso = navis.utils.is_iterable(x.units.magnitude)
-                same = _units_equal(x.units, z.units)
-                ctx.oracle(same, f'units {x.units} come back as {z.units}', case)
-                ctx.count('units', 'per-axis' if aniso else 'isotropic')
-                ctx.corr(props.get('units'), meta_text(x, 'units'), 'Meta line units text', case)
-            if 'id' in keys:
-                ctx.oracle(z.id == str(x.id), f'id {x.id!r} comes back as {z.id!r} (expected its text)', case)
-            if isinstance(wm, dict):
-                for k, v in wm.items():
-                    ctx.corr(props.get(k), str(v), f'Meta line entry {k}', case)
+            navis.read_swc(path)
+            rd = 'ok'
+        except Exception:
+            rd = 'raises'
+        ctx.corr(rd, 'ok' if resp.get('parse') == '1' else 'raises', 'custom header with a non-comment line: read_swc vs the Lean parser on the same bytes', rc)
+        ctx.oracle(False, f'write_swc(header={hdr!r}) writes the header line(s) without "#" verbatim: the file is not a valid SWC table '
+                   f'(read_swc {rd})', rc, signature='write_swc/custom-header/line-without-comment-prefix')
+        return
+    if hdr is not None:
+        ctx.corr(resp.get('hdrok'), '1', 'custom header: model and harness disagree on whether every header line is a comment', rc)
+    # the reader model (read_header_rows + read_csv(skiprows, comment)) finds exactly the row lines, and the header rows are those of the header
+    ctx.oracle(resp.get('dl') == '1', 'the lines a reader takes as data (everything after the leading # lines that is neither a comment nor blank) '
+               'are not exactly the rows of the table: a row is glued to / hidden by the header or a header line is read as data', rc)
+    ctx.corr(resp.get('hrows'), '1', 'leading # lines of the file differ from the leading # lines of the header', rc)
+    ctx.corr(resp.get('norows'), '1', 'a header line lexes as a data row', rc)
+    # --- the file is an SWC table ------------------------------------------------------------
+    ctx.oracle(resp.get('parse') == '1', 'the written file does not parse as an SWC table', rc)
+    ctx.oracle(resp.get('ncols') == '7', f'the written file has {resp.get("ncols")} columns, not seven', rc)
+    if resp.get('parse') != '1':
+        return
+    valid = resp.get('valid') == '1'
+    # theorem sortByParent_valid_iff says exactly when the as-written ordering is valid
+    is_sorted = resp.get('sorted') == '1'
+    if not valid:
+        bad_kind, bad_txt = _first_bad(resp.get('rows', ''))
+        ctx.oracle(False, 'written SWC table is not valid (ids 1..N, roots -1, every parent listed before and numbered '
+                   'lower than its children): ' + bad_txt, rc)
+    else:
+        ctx.oracle(True, 'valid', rc)
+    # --- correspondence with the model -----------------------------------------------------------
+    ctx.corr(resp.get('sorted'), '1', 'write_swc: file order is not ascending by depth (steps to the root)', rc)
+    ctx.corr(resp.get('stable'), '1', 'write_swc: file order differs from the stable sort by depth of the node table', rc)
+    ctx.count('order_kind', 'depth-sort' if is_sorted else ('parent-first' if valid else 'other'))
+    ctx.count('historical_order_would_be', 'valid' if cond else 'invalid')
+    for key, what in (('mapok', 'node map is not a bijection of the node ids onto 1..N'),
+                      ('agree', 'file rows differ from the model table (labels / ids / parent remap / radius fill / columns)'),
+                      ('mapagree', 'returned node map differs from the model map for the same order'),
+                      ('hdr', 'header (comment lines / Meta line) differs from the model header'),
+                      ('rt', 'model write → parse does not reproduce the file rows')):
+        ctx.corr(resp.get(key), '1', f'write_swc: {what}', rc)
+    rows = [r.split(':') for r in resp.get('rows', '').split()]
+    # --- read back -----------------------------------------------------------------------------------
+    r = case.get('read', {})
+    prec = r.get('precision', 32)
+    rkw = dict(connector_labels=dict(r.get('conn', [])), soma_label=r.get('soma_label', 1), precision=prec,
+               read_meta=r.get('read_meta', True))
+    # every other case leaves the options that equal the documented defaults to read_swc itself
+    call_kw = dict(rkw)
+    if len(pm0) % 2 == 0:
+        for k_, dv in (('connector_labels', {}), ('soma_label', 1), ('precision', 32), ('read_meta', True)):
+            if call_kw.get(k_) == dv:
+                del call_kw[k_]
+        ctx.count('read_defaults', 'omitted:' + ','.join(sorted(set(rkw) - set(call_kw))))
+    try:
+        z = navis.read_swc(path, **call_kw)
+    except Exception as e:
+        ctx.oracle(False, f'read_swc of the written file raised {type(e).__name__}: {str(e)[:120]}', rc)
+        return
+    tol = tol_for(prec)
+    if case.get('f32'):
+        tol = max(tol, tol_for(32))
+    zt = table_of(z)
+    # reader vs Lean readBack on the same bytes
+    ok = len(zt) == len(rows)
+    if ok:
+        for a, b in zip(zt, rows):
+            if a[0] != int(b[0]) or a[1] != int(b[6]):
+                ok = False
+            if not all(close(a[2 + j], frac(b[2 + j]), tol) for j in range(3)):
+                ok = False
+            if not close(a[5], frac(b[5]), tol):
+                ok = False
+            if not label_ok(a[6], b[1], resp.get('labint') == '1'):
+                ok = False
+    ctx.oracle(ok, 'read_swc node table differs from the table in the file (ids / parents / label values / coordinates / radius)', rc)
+    zs = z.soma
+    zs_s = 'nan' if zs is None else str(int(navis.utils.make_iterable(zs)[0]))
+    # without a row carrying `soma_label` navis falls back to find_soma (label 1 / radius), which is not part of the reader model
+    if resp.get('soma') != 'nan' or rkw['soma_label'] == 1:
+        ctx.corr(zs_s, resp.get('soma'), 'read_swc soma vs readBack soma', rc)
+    if rkw['connector_labels']:
+        zc = z.connectors
+        got = ','.join(f'{t}:{int(i)}' for t, i in zip(zc['type'].values, zc['node_id'].values)) if isinstance(zc, pd.DataFrame) else 'None'
+        ctx.corr(got, resp.get('conns'), 'read_swc connectors vs readBack connectors', rc)
+    props = dict(p.split('=', 1) for p in resp.get('props', '').split(';') if '=' in p)
+    # --- the round trip under the node map --------------------------------------------------------------
+    inv = {v: k for k, v in nmap.items()}
+    ctx.oracle(sorted(nmap) == sorted(pm0) and sorted(inv) == list(range(1, n + 1)),
+               'node map is not a bijection from the node ids onto 1..N', rc)
+    zp = {a[0]: a for a in zt}
+    ok_par = ok_xyz = ok_rad = True
+    ndx = x.nodes
+    for k in range(n):
+        i = int(ndx.node_id.values[k]); p = int(ndx.parent_id.values[k])
+        a = zp.get(nmap.get(i))
+        if a is None:
+            ok_par = False
+            break
+        want = nmap.get(p, -1) if p >= 0 else -1
+        if a[1] != want:
+            ok_par = False
+        for j, col in enumerate(('x', 'y', 'z')):
+            if not close(a[2 + j], Fraction(float(ndx[col].values[k])), tol):
+                ok_xyz = False
+        rad = float(ndx.radius.values[k])
+        if not close(a[5], Fraction(0) if math.isnan(rad) else Fraction(rad), tol):
+            ok_rad = False
+    ctx.oracle(ok_par, 'round trip: parent links differ under the node map', rc)
+    ctx.oracle(ok_xyz, f'round trip: coordinates differ (precision {prec})', rc)
+    ctx.oracle(ok_rad, f'round trip: radii differ (NaN is written as 0) (precision {prec})', rc)
+    if o.get('labels', 'auto') == 'auto' and rkw['soma_label'] == 1:
+        somas = soma_list(x)
+        exp_pre = set(int(v) for v in x.presynapses.node_id.values) if (has_conn and o.get('export')) else set()
+        exp_post = set(int(v) for v in x.postsynapses.node_id.values) if (has_conn and o.get('export')) else set()
+        eff = [s for s in somas if s not in exp_pre and s not in exp_post]
+        if somas and not eff:
+            ctx.count('soma', 'overridden-by-synapse-label')
+        elif eff:
+            want = min(nmap[s] for s in eff)
+            ctx.count('soma', 'single' if len(somas) == 1 else 'several')
+            ctx.oracle(zs is not None and int(navis.utils.make_iterable(zs)[0]) == want,
+                       f'round trip: soma {somas} comes back as {zs} (expected new id {want})', rc)
         else:
-            ctx.oracle(str(z.units) in ('1 dimensionless', 'dimensionless'), f'read_meta=False but units are {z.units}', case)
-        ctx.count('labels_mode', o.get('labels') if isinstance(o.get('labels', 'auto'), str) else 'dict')
-        ctx.count('meta_mode', wm if isinstance(wm, str) else type(wm).__name__)
-        ctx.count('precision', prec)
-        # --- sources ------------------------------------------------------------------------------------------
-        if case.get('sources'):
-            check_sources(ctx, case, d, path, text, z, rkw)
+            ctx.count('soma', 'none')
+            ctx.oracle(zs is None, f'round trip: skeleton without soma comes back with soma {zs}', rc)
+        if o.get('export') and dict(r.get('conn', [])) == {'pre': 7, 'post': 8}:
+            zc = z.connectors
+            gpre = sorted(int(i) for t, i in zip(zc['type'].values, zc['node_id'].values) if t == 'pre')
+            gpost = sorted(int(i) for t, i in zip(zc['type'].values, zc['node_id'].values) if t == 'post')
+            ctx.oracle(gpost == sorted(nmap[i] for i in exp_post), 'round trip: postsynapse labels not preserved', rc)
+            ctx.oracle(gpre == sorted(nmap[i] for i in exp_pre - exp_post),
+                       'round trip: presynapse labels not preserved (nodes without a postsynapse)', rc)
+            ctx.count('connectors_exported', 'yes')
+    # --- header meta: units and id -----------------------------------------------------------------------
+    wm = o.get('meta', 'default')
+    keys = ['id', 'name', 'units'] if wm == 'default' else (wm if isinstance(wm, list) else ([] if wm == 'off' or isinstance(wm, dict) else [wm]))
+    if hdr is not None:
+        # `write_meta` is ignored with a user supplied header: what comes back is what the header's own Meta line says
+        keys, wm = [], 'custom-header'
+        hp = dict(p_.split('=', 1) for p_ in resp.get('hdrprops', '').split(';') if '=' in p_)
+        if rkw['read_meta']:
+            ctx.corr(json.dumps(props, sort_keys=True), json.dumps(hp, sort_keys=True), 'Meta properties read back (Lean readBack) vs the Meta line of the custom header', rc)
+            if 'id' in hp:
+                ctx.oracle(str(z.id) == hp['id'], f'custom header Meta id {hp["id"]!r} comes back as {z.id!r}', rc)
+            if 'units' in hp:
+                try:
+                    want_u = navis.config.ureg(hp['units'])
+                    ctx.oracle(str(z.units) == str(want_u), f'custom header Meta units {hp["units"]!r} come back as {z.units}', rc)
+                except Exception:
+                    pass
+            if not hp:
+                ctx.oracle(str(z.units) in ('1 dimensionless', 'dimensionless'), f'custom header without Meta line but units are {z.units}', rc)
+            ctx.count('custom_header_meta', ','.join(sorted(hp)) or 'none')
+    if rkw['read_meta']:
+        if 'units' in keys:
+            aniso = navis.utils.is_iterable(x.units.magnitude)
+            same = _units_equal(x.units, z.units)
+            ctx.oracle(same, f'units {x.units} come back as {z.units}', rc)
+            ctx.count('units', 'per-axis' if aniso else 'isotropic')
+            ctx.corr(props.get('units'), meta_text(x, 'units'), 'Meta line units text', rc)
+        if 'id' in keys:
+            ctx.oracle(z.id == str(x.id), f'id {x.id!r} comes back as {z.id!r} (expected its text)', rc)
+        if isinstance(wm, dict):
+            for k, v in wm.items():
+                ctx.corr(props.get(k), str(v), f'Meta line entry {k}', rc)
+    else:
+        ctx.oracle(str(z.units) in ('1 dimensionless', 'dimensionless'), f'read_meta=False but units are {z.units}', rc)
+    ctx.count('labels_mode', o.get('labels') if isinstance(o.get('labels', 'auto'), str) else 'dict')
+    ctx.count('meta_mode', wm if isinstance(wm, str) else type(wm).__name__)
+    # --- dtypes and rounding: precision p casts ids to int<p>, coordinates / radius to float<p> (base.parse_precision) -----------
+    ip, fp = {16: ('int16', 'float16'), 32: ('int32', 'float32'), 64: ('int64', 'float64'), None: ('int64', 'float64')}[prec]
+    dts = {c: str(z.nodes[c].dtype) for c in ('node_id', 'parent_id', 'x', 'y', 'z', 'radius')}
+    ctx.oracle(dts['node_id'] == ip and dts['parent_id'] == ip and all(dts[c] == fp for c in ('x', 'y', 'z', 'radius')),
+               f'read_swc(precision={prec}): column dtypes {dts}, expected {ip} / {fp}', rc)
+    if prec in (16, 32):
+        # "to the precision requested": exactly the nearest float<p> of the decimal text in the file
+        ft = {16: np.float16, 32: np.float32}[prec]
+        exact = len(zt) == len(rows) and all(
+            (a[2 + j] == float(ft(float(Fraction(frac(b[2 + j]))))) or (math.isinf(a[2 + j]) and math.isinf(float(ft(float(Fraction(frac(b[2 + j])))))))) for a, b in zip(zt, rows) for j in range(3))
+        ctx.oracle(exact, f'read_swc(precision={prec}): a coordinate is not the nearest float{prec} of the number in the file', rc)
+    ctx.count('precision', prec)
+    # --- sources ------------------------------------------------------------------------------------------
+    if case.get('sources'):
+        check_sources(ctx, case, d, path, text, z, rkw, rc)
+
+
+def dense_rank(vals):
+    """Order-equivalence class of a key column: the dense ranks of its values (invariant under 0- / 1-based depths)."""
+    try:
+        v = [int(t) for t in vals]
+    except (TypeError, ValueError):
+        return str(vals)
+    rk = {d: k for k, d in enumerate(sorted(set(v)))}
+    return [rk[d] for d in v]
+
+
+def header_class(h):
+    if h is None:
+        return 'generated'
+    if h == '':
+        return 'empty'
+    k = []
+    if not header_ok(h):
+        k.append('non-comment-line')
+    k.append('multi' if len(header_lines(h)) > 1 else 'single')
+    k.append('nl' if h.endswith('\n') else 'no-nl')
+    if any(l.lower().startswith('# meta:') for l in header_lines(h)):
+        k.append('meta-last' if header_lines(h)[-1].lower().startswith('# meta:') else 'meta')
+    if '\r' in h:
+        k.append('crlf')
+    if any(l.strip('\r') == '' for l in header_lines(h)):
+        k.append('blank-line')
+    return '+'.join(k)
 
 
 def _units_equal(a, b):
@@ -486,7 +619,8 @@ def _first_bad(rows_s):
 # ------------------------------------------------------------------------------------------------
 # sources
 # ------------------------------------------------------------------------------------------------
-def check_sources(ctx, case, d, path, text, z, rkw):
+def check_sources(ctx, case, d, path, text, z, rkw, rc=None):
+    rc = rc if rc is not None else case
     ref = table_of(z)
     srcs = {
         'Path': lambda: pathlib.Path(path),
@@ -503,23 +637,23 @@ def check_sources(ctx, case, d, path, text, z, rkw):
             if hasattr(src, 'close'):
                 src.close()
             ok = isinstance(y, navis.TreeNeuron) and tables_equal(table_of(y), ref)
-            ctx.oracle(ok, f'read_swc from {nm} yields a different node table than from the path', case)
-            ctx.oracle(_same_soma(y, z), f'read_swc from {nm}: soma {y.soma} vs {z.soma} from the path', case)
+            ctx.oracle(ok, f'read_swc from {nm} yields a different node table than from the path', rc)
+            ctx.oracle(_same_soma(y, z), f'read_swc from {nm}: soma {y.soma} vs {z.soma} from the path', rc)
             if rkw.get('read_meta', True):
-                ctx.oracle(str(y.units) == str(z.units), f'read_swc from {nm}: units {y.units} vs {z.units}', case)
+                ctx.oracle(str(y.units) == str(z.units), f'read_swc from {nm}: units {y.units} vs {z.units}', rc)
         except Exception as e:
-            ctx.oracle(False, f'read_swc from {nm} raised {type(e).__name__}: {str(e)[:120]}', case)
+            ctx.oracle(False, f'read_swc from {nm} raised {type(e).__name__}: {str(e)[:120]}', rc)
         ctx.count('source', nm)
     # DataFrame with the seven SWC columns (what read_csv yields)
     try:
         df = pd.read_csv(io.StringIO(text), delimiter=' ', skipinitialspace=True, comment='#', header=None)
         df.columns = list(swc_io.NODE_COLUMNS)
         y = navis.read_swc(df, **rkw)
-        ctx.oracle(isinstance(y, navis.TreeNeuron) and tables_equal(table_of(y), ref), 'read_swc from a DataFrame yields a different node table', case)
-        ctx.oracle(_same_soma(y, z), f'read_swc from a DataFrame: soma {y.soma} vs {z.soma}', case)
+        ctx.oracle(isinstance(y, navis.TreeNeuron) and tables_equal(table_of(y), ref), 'read_swc from a DataFrame yields a different node table', rc)
+        ctx.oracle(_same_soma(y, z), f'read_swc from a DataFrame: soma {y.soma} vs {z.soma}', rc)
         ctx.count('source', 'DataFrame')
     except Exception as e:
-        ctx.oracle(False, f'read_swc from a DataFrame raised {type(e).__name__}: {str(e)[:120]}', case)
+        ctx.oracle(False, f'read_swc from a DataFrame raised {type(e).__name__}: {str(e)[:120]}', rc)
     # folder / zip / tar with several copies under different names; fmt decides name / id
     names = case.get('names') or ['alpha_12.swc', 'beta_7.swc']
     fmt = case.get('fmt', '{name}_{id:int}.swc')
@@ -552,31 +686,31 @@ def check_sources(ctx, case, d, path, text, z, rkw):
             ys, err = None, e
         ctx.count('source', kind)
         if unmatched:
-            ctx.oracle(err is not None, f'read_swc({kind}, fmt={fmt!r}) accepted file names the pattern cannot parse: {unmatched}', case)
+            ctx.oracle(err is not None, f'read_swc({kind}, fmt={fmt!r}) accepted file names the pattern cannot parse: {unmatched}', rc)
             continue
         if err is not None:
-            ctx.oracle(False, f'read_swc({kind}, fmt={fmt!r}) raised {type(err).__name__}: {str(err)[:120]}', case)
+            ctx.oracle(False, f'read_swc({kind}, fmt={fmt!r}) raised {type(err).__name__}: {str(err)[:120]}', rc)
             continue
         ok = isinstance(ys, navis.NeuronList) and len(ys) == len(names)
-        ctx.oracle(ok, f'read_swc({kind}) returned {type(ys).__name__} of length {len(ys) if hasattr(ys, "__len__") else "?"} for {len(names)} files', case)
+        ctx.oracle(ok, f'read_swc({kind}) returned {type(ys).__name__} of length {len(ys) if hasattr(ys, "__len__") else "?"} for {len(names)} files', rc)
         if not ok:
             continue
         got_files = [getattr(y, 'file', None) for y in ys]
-        ctx.oracle(sorted(got_files) == sorted(names), f'read_swc({kind}): files {got_files} vs {names}', case)
+        ctx.oracle(sorted(got_files) == sorted(names), f'read_swc({kind}): files {got_files} vs {names}', rc)
         if kind in ('zip', 'tar', 'tar.gz', 'list'):
-            ctx.oracle(got_files == names, f'read_swc({kind}): batch order {got_files} differs from the archive / list order {names}', case)
+            ctx.oracle(got_files == names, f'read_swc({kind}): batch order {got_files} differs from the archive / list order {names}', rc)
         else:
             ys2 = navis.read_swc(src, fmt=fmt, **rkw)
-            ctx.oracle([getattr(y, 'file', None) for y in ys2] == got_files, 'read_swc(folder): batch order differs between two reads', case)
+            ctx.oracle([getattr(y, 'file', None) for y in ys2] == got_files, 'read_swc(folder): batch order differs between two reads', rc)
         for y in ys:
-            ctx.oracle(tables_equal(table_of(y), ref), f'read_swc({kind}) yields a different node table than the path ({y.file})', case)
-            ctx.oracle(_same_soma(y, z), f'read_swc({kind}): soma {y.soma} vs {z.soma}', case)
+            ctx.oracle(tables_equal(table_of(y), ref), f'read_swc({kind}) yields a different node table than the path ({y.file})', rc)
+            ctx.oracle(_same_soma(y, z), f'read_swc({kind}): soma {y.soma} vs {z.soma}', rc)
             ex = expect.get(getattr(y, 'file', None)) or {}
             for k, v in ex.items():
                 if k == 'file':
                     continue
                 gv = getattr(y, k, None)
-                ctx.oracle(gv == v and type(gv) is type(v), f'read_swc({kind}, fmt={fmt!r}): attribute {k} of {y.file} is {gv!r}, the pattern prescribes {v!r}', case)
+                ctx.oracle(gv == v and type(gv) is type(v), f'read_swc({kind}, fmt={fmt!r}): attribute {k} of {y.file} is {gv!r}, the pattern prescribes {v!r}', rc)
 
 
 def _same_soma(a, b):
@@ -626,6 +760,21 @@ def case_fmt(ctx, case):
         return
     ctx.corr(json.dumps(impl, sort_keys=True), json.dumps(model, sort_keys=True), f'parse_filename({fmt!r}, {fname!r}) vs matchFmt', case)
     ctx.count('fmt_outcome', 'nomatch' if model is None else 'match')
+    if impl is not None:
+        # the property itself, decided by the proved checker on navis' own values: "attributes taken from the file name as the pattern
+        # prescribes" = the file name contains the pattern with every named placeholder replaced by the extracted text
+        # (typed placeholders are left free: the conversion loses leading zeros / signs)
+        import re as _re
+        typed = set()
+        for grp in _re.findall(r'\{(.*?)\}', fmt):
+            for f_ in grp.replace(' ', '').split(','):
+                if ':' in f_ and f_.split(':')[1] != 'str':
+                    typed.add(f_.split(':')[0])
+        vals = ';'.join(f'{k}=' + ','.join(str(ord(ch)) for ch in str(v)) for k, v in impl.items() if k != 'file' and k not in typed and isinstance(v, str))
+        ok = ctx.ask(f'c07.fmtcheck {fmt} |{fname} |{vals}')
+        ctx.oracle(ok == '1', f'parse_filename(fmt={fmt!r}) of {fname!r} returned {({k: v for k, v in impl.items() if k != "file"})}: '
+                   'the pattern with these values filled in does not occur in the file name (Lean checker fmtConsistentB)', case)
+        ctx.oracle(impl.get('file') == fname, f'parse_filename: file attribute {impl.get("file")!r} is not the file name {fname!r}', case)
 
 
 # ------------------------------------------------------------------------------------------------
@@ -643,7 +792,7 @@ def case_parse(ctx, case):
     if lines and lines[-1] == '':
         lines = lines[:-1]
     opts_s = wire_opts(dict(opts={}, read=r), None)
-    resp = fields(ctx.ask(f'c07.parse {opts_s} |{SEP.join(lines)}'))
+    resp = fields(ctx.ask(f'c07.parse {opts_s} |{SEP.join(lines + ["$"])}'))
     try:
         z = navis.read_swc(io.StringIO(text), **rkw)
         err = None
@@ -654,6 +803,7 @@ def case_parse(ctx, case):
         ctx.count('parse_outcome', 'rejected')
         return
     ctx.count('parse_outcome', 'ok')
+    ctx.count('parse_blanks', f"{case.get('ws', 'none')}/{case.get('eol', 'lf')}")
     if err is not None:
         ctx.corr('raises', 'ok', f'read_swc raised {type(err).__name__}: {str(err)[:100]} on SWC text the model parses', case)
         return
@@ -691,7 +841,7 @@ def case_nanrow(ctx, case):
     if lines and lines[-1] == '':
         lines = lines[:-1]
     prec = case.get('precision', 64)
-    resp = fields(ctx.ask(f'c07.sanitised soma=1 |{SEP.join(lines)}'))
+    resp = fields(ctx.ask(f'c07.sanitised soma=1 |{SEP.join(lines + ["$"])}'))
     try:
         z = navis.read_swc(text, precision=prec)
         err = None
@@ -716,6 +866,310 @@ def case_nanrow(ctx, case):
     if prec is not None and len(zt):
         ctx.oracle(str(z.nodes.node_id.dtype).startswith('int') and str(z.nodes.parent_id.dtype).startswith('int'),
                    f'read_swc with NaN rows: id columns have dtypes {z.nodes.node_id.dtype}/{z.nodes.parent_id.dtype}, not integers', case)
+
+
+# ------------------------------------------------------------------------------------------------
+# NeuronLists / folder, pattern, zip, list targets
+# ------------------------------------------------------------------------------------------------
+TARGETS = ['folder', 'pattern', 'zip', 'pattern@zip', 'list', 'single-folder', 'single-zip', 'pattern-id-name']
+
+
+def gen_many_case(r):
+    k = r.randint(2, 4)
+    subs = []
+    for j in range(k):
+        c = gen_write_case(r, small=True)
+        c['id'] = r.choice([100 + j, f'n{j}', 2 ** 33 + j, 7 * (j + 1)])
+        c['name'] = r.choice([f'nm{j}', f'DA{j} lPN', f'x_y{j}'])
+        if isinstance(c.get('soma'), list):
+            c['soma'] = c['soma'][0]
+        c.pop('fname', None)
+        subs.append(c)
+    export = r.random() < 0.3
+    if export:
+        for c in subs:
+            if c.get('conn') is None:
+                ids = [rw['id'] for rw in c['rows']]
+                c['conn'] = [[r.choice(ids), r.choice(['pre', 'post'])] for _ in range(r.randint(0, 3))]
+    opts = dict(labels=r.choice(['auto', 'auto', 'zero', 'column']), export=export,
+                meta=r.choice(['default', 'default', 'off', ['id', 'units'], {'template': 'JRC2018F'}]), nodemap=r.random() < 0.5, header=gen_header(r))
+    if opts['header'] is not None and not header_ok(opts['header']):
+        opts['header'] = '# list header'
+    read = dict(conn=r.choice([[], [['pre', 7], ['post', 8]]]), soma_label=1, precision=r.choice([32, 64, 16]), read_meta=True)
+    target = r.choice(TARGETS)
+    if target.startswith('single'):
+        subs = subs[:1]
+    return dict(kind='many', subs=subs, opts=opts, read=read, target=target)
+
+
+def case_many(ctx, case):
+    subs = [dict(c, opts=case['opts'], read=case['read']) for c in case['subs']]
+    try:
+        xs = [build(c) for c in subs]
+    except Exception as e:
+        ctx.oracle(False, f'cannot build the skeletons of the case: {type(e).__name__}: {str(e)[:120]}', case)
+        return
+    kw = write_kwargs(case)
+    target = case['target']
+    ctx.count('many_target', target)
+    ids = [str(x.id) for x in xs]
+    if len(set(ids)) != len(ids):
+        return
+    with Tmp() as d:
+        out = os.path.join(d, 'out')
+        os.mkdir(out)
+        obj = xs[0] if target.startswith('single') else navis.NeuronList(xs)
+        # expected file names (base.Writer: `<id>.swc` in a folder / a zip, `str.format(neuron=x)` for a pattern)
+        if target in ('folder', 'single-folder'):
+            dest, names, fmt, container = out, [f'{i}.swc' for i in ids], '{id}.swc', out
+        elif target == 'pattern':
+            dest, names, fmt, container = os.path.join(out, 'skel-{neuron.name}.swc'), [f'skel-{x.name}.swc' for x in xs], 'skel-{name}.swc', out
+        elif target == 'pattern-id-name':
+            dest, names, fmt, container = os.path.join(out, '{neuron.id}-{neuron.name}.swc'), [f'{x.id}-{x.name}.swc' for x in xs], '{id}-{name}.swc', out
+        elif target in ('zip', 'single-zip'):
+            dest, names, fmt, container = os.path.join(d, 'nl.zip'), [f'{i}.swc' for i in ids], '{id}.swc', os.path.join(d, 'nl.zip')
+        elif target == 'pattern@zip':
+            dest, names, fmt, container = os.path.join(d, 'skel-{neuron.name}.swc@nl.zip'), [f'skel-{x.name}.swc' for x in xs], 'skel-{name}.swc', os.path.join(d, 'nl.zip')
+        else:
+            names = [f'f{k}.swc' for k in range(len(xs))]
+            dest, fmt, container = [os.path.join(out, nm) for nm in names], '{name}.swc', out
+        if len(set(names)) != len(names):
+            return
+        try:
+            ret = navis.write_swc(obj, dest, **kw)
+            err = None
+        except Exception as e:
+            ret, err = None, e
+        raises = kw['export_connectors'] and kw['labels'] is True and any(not isinstance(x.connectors, pd.DataFrame) for x in xs)
+        if err is not None or raises:
+            ctx.corr('raises' if err is not None else 'ok', 'raises' if raises else 'ok',
+                     f'write_swc({target}) raised {type(err).__name__ if err else None}: {str(err)[:100] if err else ""}', case)
+            if err is not None and not raises:
+                ctx.oracle(False, f'write_swc({target}) raised {type(err).__name__}: {str(err)[:120]}', case)
+            return
+        # a node map is only returned for a single neuron written to a file / folder (write_many / write_zip return None)
+        ctx.count('many_return', type(ret).__name__)
+        if target == 'single-folder' and kw['return_node_map']:
+            ctx.oracle(isinstance(ret, dict), f'write_swc(single neuron → folder, return_node_map=True) returned {type(ret).__name__}', case)
+        # the files produced
+        if container.endswith('.zip'):
+            with zipfile.ZipFile(container) as zf:
+                got = zf.namelist()
+                ex = os.path.join(d, 'extracted')
+                os.mkdir(ex)
+                zf.extractall(ex)
+            files = [os.path.join(ex, nm) for nm in names]
+            ctx.oracle(sorted(got) == sorted(names), f'write_swc({target}): archive members {got}, expected {names}', case)
+        else:
+            got = sorted(os.listdir(container))
+            files = [os.path.join(container, nm) for nm in names]
+            ctx.oracle(got == sorted(names), f'write_swc({target}): files {got}, expected {sorted(names)}', case)
+        if sorted(got) != sorted(names):
+            return
+        singles = []
+        for c, x, f in zip(subs, xs, files):
+            _, m2 = swc_io.make_swc_table(x, labels=kw['labels'], export_connectors=kw['export_connectors'], return_node_map=True)
+            nmap = {int(k): int(v) for k, v in m2.items()}
+            if isinstance(ret, dict) and target == 'single-folder':
+                ctx.oracle({int(k): int(v) for k, v in ret.items()} == nmap, 'returned node map differs from make_swc_table\'s', case)
+            judge_file(ctx, c, x, kw, nmap, f, d, report=case)
+            singles.append(f)
+        # read the folder / archive back with the matching pattern
+        r = case['read']
+        rkw = dict(connector_labels=dict(r.get('conn', [])), soma_label=r.get('soma_label', 1), precision=r.get('precision', 32), read_meta=True)
+        try:
+            ys = navis.read_swc(container, fmt=fmt, **rkw)
+        except Exception as e:
+            ctx.oracle(False, f'read_swc({target} container, fmt={fmt!r}) raised {type(e).__name__}: {str(e)[:120]}', case)
+            return
+        ok = isinstance(ys, navis.NeuronList) and len(ys) == len(xs)
+        ctx.oracle(ok, f'read_swc({target} container) returned {type(ys).__name__} of length {len(ys) if hasattr(ys, "__len__") else "?"} for {len(xs)} neurons', case)
+        if not ok:
+            return
+        by_file = {getattr(y, 'file', None): y for y in ys}
+        ctx.oracle(sorted(by_file) == sorted(names), f'read_swc({target} container): files {sorted(map(str, by_file))} vs {sorted(names)}', case)
+        if container.endswith('.zip'):
+            ctx.oracle([getattr(y, 'file', None) for y in ys] == got, f'read_swc(zip): order {[y.file for y in ys]} is not the archive order {got}', case)
+        for x, nm, f in zip(xs, names, singles):
+            y = by_file.get(nm)
+            if y is None:
+                continue
+            try:
+                ref = navis.read_swc(f, **rkw)
+            except Exception:
+                continue        # already reported by judge_file
+            ctx.oracle(tables_equal(table_of(y), table_of(ref)), f'read_swc({target} container): node table of {nm} differs from reading the file alone', case)
+            ctx.oracle(_same_soma(y, ref), f'read_swc({target} container): soma of {nm} is {y.soma}, alone {ref.soma}', case)
+            if 'id' in fmt:
+                ctx.oracle(y.id == str(x.id), f'read_swc({target} container, fmt={fmt!r}): id of {nm} is {y.id!r}, the file name says {str(x.id)!r}', case)
+            if 'name' in fmt and target != 'list':
+                ctx.oracle(y.name == str(x.name), f'read_swc({target} container, fmt={fmt!r}): name of {nm} is {y.name!r}, the file name says {str(x.name)!r}', case)
+            if case['opts'].get('header') is None and case['opts'].get('meta') in ('default', ['id', 'units']):
+                ctx.oracle(_units_equal(x.units, y.units), f'read_swc({target} container): units of {nm} are {y.units}, written {x.units}', case)
+
+
+# ------------------------------------------------------------------------------------------------
+# read options on folders / archives: limit, include_subdirs, hidden and foreign files
+# ------------------------------------------------------------------------------------------------
+def _tiny_swc(k):
+    return f'# Meta: {{"units": "1 nanometer"}}\n1 0 {k}.0 0.0 0.0 0.5 -1\n2 0 {k}.0 1.0 0.0 0.5 1\n'
+
+
+def gen_readopt_case(r):
+    n = r.randint(3, 6)
+    stems = r.sample(['qa1', 'qb2', 'qa3', 'zz4', 'qb5', 'mm6', 'qa77', 'left_8'], n)
+    lim = r.choice([('int', r.randint(0, n + 1)), ('int', r.randint(1, n)), ('slice', [r.randint(0, 2), r.randint(2, n)]), ('sub', r.choice(['qa', 'qb', 'zz', 'nomatch'])),
+                    ('regex', r.choice([r'^qa\d', r'q[ab]\d\.swc$', r'.*_8'])), ('list', r.sample(stems, r.randint(1, n))), ('none', None), ('none', None)])
+    # now and then the folder itself carries the substring in its name (a `limit` string is documented as a *file name* pattern)
+    dirname = 'lib_' + lim[1] if (lim[0] == 'sub' and r.random() < 0.35) else 'lib'
+    return dict(kind='readopt', stems=stems, limit=list(lim), subdirs=r.random() < 0.5, deep=r.random() < 0.6, hidden=r.random() < 0.5, dirname=dirname)
+
+
+def case_readopt(ctx, case):
+    import re as _re
+    stems = case['stems']
+    names = [s_ + '.swc' for s_ in stems]
+    kind, val = case['limit']
+    with Tmp() as d:
+        sub = os.path.join(d, case.get('dirname', 'lib'))
+        os.mkdir(sub)
+        for k, nm in enumerate(names):
+            open(os.path.join(sub, nm), 'w').write(_tiny_swc(k))
+        extra = []
+        if case.get('hidden'):
+            open(os.path.join(sub, '._' + names[0]), 'w').write('resource fork garbage')
+            open(os.path.join(sub, 'notes.txt'), 'w').write('not an swc')
+            extra = ['._' + names[0], 'notes.txt']
+        deep = []
+        if case.get('deep'):
+            os.mkdir(os.path.join(sub, 'deep'))
+            open(os.path.join(sub, 'deep', 'inner9.swc'), 'w').write(_tiny_swc(9))
+            deep = ['inner9.swc']
+        zp, tp = os.path.join(d, 'lib.zip'), os.path.join(d, 'lib.tar')
+        members = names + extra
+        with zipfile.ZipFile(zp, 'w') as zf:
+            for nm in members:
+                zf.write(os.path.join(sub, nm), arcname=nm)
+        with tarfile.open(tp, 'w') as tf:
+            for nm in members:
+                tf.add(os.path.join(sub, nm), arcname=nm)
+        limit = {'int': val, 'slice': slice(*val) if kind == 'slice' else None, 'sub': val, 'regex': val, 'list': [v + '.swc' for v in val] if kind == 'list' else None,
+                 'none': None}[kind]
+        ctx.count('limit_kind', kind)
+        for src_kind, src in (('folder', sub), ('zip', zp), ('tar', tp)):
+            kw = dict(fmt='{name}.swc', limit=limit)
+            if src_kind == 'folder':
+                kw['include_subdirs'] = bool(case.get('subdirs'))
+            try:
+                ys = navis.read_swc(src, **kw)
+                got = [y.file for y in ys] if isinstance(ys, navis.NeuronList) else [ys.file]
+            except Exception as e:
+                ctx.oracle(False, f'read_swc({src_kind}, limit={limit!r}) raised {type(e).__name__}: {str(e)[:120]}', case)
+                continue
+            ctx.count('readopt_source', src_kind)
+            # the candidate files in the order the source presents them
+            if src_kind == 'folder':
+                try:
+                    base = [y.file for y in navis.read_swc(src, fmt='{name}.swc', include_subdirs=bool(case.get('subdirs')))]
+                except Exception as e:
+                    ctx.oracle(False, f'read_swc(folder) raised {type(e).__name__}: {str(e)[:120]}', case)
+                    continue
+                want_all = sorted(names + (deep if case.get('subdirs') else []))
+                ctx.oracle(sorted(base) == want_all, f'read_swc(folder, include_subdirs={bool(case.get("subdirs"))}) read {sorted(base)}, the .swc files that are not hidden are {want_all}', case)
+            else:
+                base = list(names)
+            if kind == 'none':
+                ctx.oracle(got == base, f'read_swc({src_kind}) read {got}, expected {base}', case)
+                continue
+            if kind == 'int':
+                want = base[:val]
+                sig = 'read_swc/limit-int/archive-reads-one-more' if (src_kind != 'folder' and got == base[:val + 1] and got != want) else None
+                ctx.oracle(got == want, f'read_swc({src_kind}, limit={val}) read {len(got)} files {got}; the first {val} are {want}', case, signature=sig)
+            elif kind == 'slice':
+                ctx.oracle(got == base[limit], f'read_swc({src_kind}, limit=slice{tuple(val)}) read {got}, expected {base[limit]}', case)
+            elif kind == 'sub':
+                want = [b for b in base if val in b]
+                sig = None
+                if src_kind == 'folder' and val in d and val not in os.path.basename(sub):
+                    continue          # the random scratch path happens to contain the substring: not a controlled input
+                if src_kind == 'folder' and val in os.path.basename(sub) and got == base and got != want:
+                    sig = 'read_swc/limit-substring/folder-matches-full-path'
+                ctx.oracle(got == want, f'read_swc({src_kind}, limit={val!r}) read {got}, the names containing it are {want}', case, signature=sig)
+            elif kind == 'regex':
+                want = [b for b in base if _re.search(val, b)]
+                ctx.oracle(got == want, f'read_swc({src_kind}, limit={val!r}) read {got}, the names matching it are {want}', case)
+            elif kind == 'list':
+                want = [b for b in base if b in limit]
+                sig = 'read_swc/limit-list/folder-and-zip-match-nothing' if (src_kind != 'tar' and got == [] and want) else None
+                ctx.oracle(got == want, f'read_swc({src_kind}, limit={limit}) read {got}, the listed files present are {want}', case, signature=sig)
+
+
+# ------------------------------------------------------------------------------------------------
+# `_node_depths` on arbitrary parent maps (cycles, dangling parents, self loops: the `on_path` / `in parents` guards)
+# ------------------------------------------------------------------------------------------------
+def gen_depths_case(r):
+    n = r.randint(1, 9)
+    ids = r.sample(range(0, 30), n)
+    mode = r.choice(['forest', 'any', 'any', 'cycle'])
+    par = []
+    for k, i in enumerate(ids):
+        if mode == 'forest':
+            par.append(-1 if k == 0 or r.random() < 0.2 else r.choice(ids[:k]))
+        else:
+            par.append(r.choice(ids + [-1, -1, 99, i]))
+    if mode == 'cycle' and n >= 2:
+        cyc = r.sample(range(n), r.randint(2, n))
+        for a, b in zip(cyc, cyc[1:] + cyc[:1]):
+            par[a] = ids[b]
+    order = list(range(n))
+    r.shuffle(order)
+    return dict(kind='depths', ids=[ids[k] for k in order], parents=[par[k] for k in order], mode=mode)
+
+
+def case_depths(ctx, case):
+    ids, par = case['ids'], case['parents']
+    model = ctx.ask('c07.depths ' + ' '.join(f'{i}:{p}' for i, p in zip(ids, par)))
+    try:
+        impl = dense_rank([int(v) for v in swc_io._node_depths(np.array(ids, dtype=np.int64), np.array(par, dtype=np.int64))])
+    except Exception as e:
+        impl = f'raises {type(e).__name__}'
+    if case.get('mode') == 'forest':
+        ctx.corr(impl, dense_rank(model.split(',')), '_node_depths on a forest vs the Lean model of the loop as written (as sort keys: dense ranks)', case)
+    else:
+        # cycles / dangling parents cannot reach write_swc through a TreeNeuron; the guards only have to terminate
+        ctx.corr(isinstance(impl, list) and len(impl) == len(ids), True, '_node_depths on a malformed parent map: ' + str(impl)[:80], case)
+    ctx.count('depths_mode', case.get('mode'))
+
+
+# ------------------------------------------------------------------------------------------------
+# ids beyond the integer range of the requested precision
+# ------------------------------------------------------------------------------------------------
+def gen_bigid_case(r):
+    n = r.randint(2, 5)
+    pool = [1, 2, 3, 32767, 32768, 40000, 65536, 2 ** 31 - 1, 2 ** 31, 2 ** 31 + 5, 2 ** 32 + 5, 2 ** 40 + 3, 2 ** 53 + 1, 2 ** 62]
+    ids = r.sample(pool, n)
+    return dict(kind='bigid', ids=ids, parents=[-1] + [r.choice(ids[:k]) for k in range(1, n)], precision=r.choice([16, 32, 64, None]))
+
+
+def case_bigid(ctx, case):
+    ids, par, prec = case['ids'], case['parents'], case['precision']
+    text = ''.join(f'{i} 0 {k}.0 0.0 0.0 0.5 {p}\n' for k, (i, p) in enumerate(zip(ids, par)))
+    lines = text.split('\n')[:-1]
+    resp = fields(ctx.ask(f'c07.parse labels=auto soma=1 |{SEP.join(lines + ["$"])}'))
+    rows = [rw.split(':') for rw in resp.get('rows', '').split()]
+    ctx.corr([int(b[0]) for b in rows], ids, 'Lean lexer: ids of the hand-made table', case)
+    try:
+        z = navis.read_swc(text, precision=prec)
+    except Exception as e:
+        ctx.oracle(False, f'read_swc(precision={prec}) of a table with ids {ids} raised {type(e).__name__}: {str(e.__cause__ or e)[:100]}', case)
+        return
+    got = [(int(a), int(b)) for a, b in zip(z.nodes.node_id.values, z.nodes.parent_id.values)]
+    want = list(zip(ids, par))
+    bits = {16: 16, 32: 32, 64: 64, None: 64}[prec]
+    over = max(ids) >= 2 ** (bits - 1)
+    ctx.count('bigid', f'{prec}:{"over" if over else "fits"}')
+    ctx.oracle(got == want, f'read_swc(precision={prec}): ids / parents {got} differ from the table {want}', case,
+               signature='read_swc/precision/id-exceeds-int-range' if over else None)
 
 
 # ------------------------------------------------------------------------------------------------
@@ -755,6 +1209,36 @@ def fill_fmt(r, fmt):
     if r.random() < 0.1:
         out = out.replace('.swc', '.SWC' if r.random() < 0.5 else '.txt')
     return out
+
+
+HDR_LINES = ['# exported by my pipeline', '#', '# a\t b  ', '#no space', '# PointNo Label X Y Z Radius Parent', '# µm ü neuron', '# 1 0 0.0 0.0 0.0 1.0 -1',
+             '## double', '# x | y', '# trailing blank ']
+HDR_META = ['# Meta: {"id": "5", "units": "2 micrometer"}', '# Meta: {"id": 12, "name": "zz"}', '# META: {"units": "8 nanometer"}', '# meta: {"id": "abc"}',
+            '# Meta: {"units": "1 micrometer", "template": "JRC2018F"}']
+HDR_SPECIAL = ['', '\n', '#', '# one', '# one\n', '#\n#', '# a\n\n', '\n# after blank']
+HDR_BAD = ['no hash', '# a\nno hash\n', ' # lead', 'exported 2026\n# b', '# a\n   \n# b']
+
+
+def gen_header(r):
+    """The `header=` option: None, or a string of comment lines in every arrangement of line breaks / Meta line position / blank lines."""
+    k = r.random()
+    if k < 0.42:
+        return None
+    if k < 0.50:
+        return r.choice(HDR_SPECIAL)
+    if k < 0.56:
+        return r.choice(HDR_BAD)
+    lines = [r.choice(HDR_LINES) for _ in range(r.randint(1, 3))]
+    if r.random() < 0.45:
+        pos = r.choice([0, len(lines), len(lines), r.randint(0, len(lines))])
+        lines.insert(pos, r.choice(HDR_META))
+    if r.random() < 0.15:
+        lines.insert(r.randint(0, len(lines)), '')
+    sep = '\r\n' if r.random() < 0.12 else '\n'
+    h = sep.join(lines)
+    if r.random() < 0.5:
+        h += sep
+    return h
 
 
 def gen_write_case(r, small=False):
@@ -797,7 +1281,7 @@ def gen_write_case(r, small=False):
     elif lb == 'idxfull':
         lb = [[k, r.choice([0, 1, 7, 8])] for k in range(n)]
     wm = r.choice(['default', 'default', 'default', 'off', ['id', 'units'], ['units'], {'template': 'JRC2018F', 'n': 5}, 'name', 'units'])
-    case['opts'] = dict(labels=lb, export=r.random() < 0.5, meta=wm, nodemap=r.random() < 0.7)
+    case['opts'] = dict(labels=lb, export=r.random() < 0.5, meta=wm, nodemap=r.random() < 0.7, header=gen_header(r))
     case['read'] = dict(conn=r.choice([[], [['pre', 7], ['post', 8]], [['pre', 7], ['post', 8]], [['post', 8], ['pre', 7]], [['presynapse', 7]]]),
                         soma_label=r.choice([1, 1, 1, 1, None, 5]), precision=r.choice([32, 32, 64, 64, 16]),
                         read_meta=r.random() < 0.9)
@@ -854,8 +1338,25 @@ def gen_parse_text(r):
         else:
             k = body[0]
             lines[k] = dch.join(lines[k].split('#')[0].strip().split(dch)[:6])
-    text = '\n'.join(lines) + ('\n' if r.random() < 0.8 else '')
-    return dict(text=text, read=dict(delim=dl, conn=r.choice([[], [['pre', 7], ['post', 8]]]), soma_label=r.choice([1, 1, None, 5]),
+    # blanks the way hand-edited files have them: trailing blanks on every data row (one more, empty, column), on one later
+    # row only (ragged: pandas refuses), a line of blanks between rows (a row without data: dropped, orphans re-rooted)
+    ws = 'none'
+    if dl == 'space' and not malformed:
+        body = [k for k, l in enumerate(lines) if l and not l.lstrip().startswith('#') and '#' not in l]
+        w = r.random()
+        if w < 0.08 and body:
+            for k in body:
+                lines[k] = lines[k] + ' '
+            ws = 'trailing-all' if len(body) == len([l for l in lines if l and not l.lstrip().startswith('#')]) else 'trailing-some'
+        elif w < 0.12 and len(body) >= 2:
+            lines[body[-1]] = lines[body[-1]] + '  '
+            ws = 'trailing-one'
+        elif w < 0.18 and len(body) >= 1:
+            lines.insert(body[-1], r.choice([' ', '   ']))
+            ws = 'blank-row'
+    eol = '\r\n' if r.random() < 0.15 else '\n'
+    text = eol.join(lines) + (eol if r.random() < 0.8 else '')
+    return dict(ws=ws, eol='crlf' if eol != '\n' else 'lf', text=text, read=dict(delim=dl, conn=r.choice([[], [['pre', 7], ['post', 8]]]), soma_label=r.choice([1, 1, None, 5]),
                                      precision=r.choice([64, 32]), read_meta=r.random() < 0.85), malformed=malformed)
 
 
@@ -881,10 +1382,35 @@ CHAIN5 = dict(rows=[dict(id=i, parent=(i - 1 if i > 1 else -1), x=3 * i, y=0, z=
               opts=dict(labels='auto', export=False, meta='default', nodemap=True), read=dict(precision=32), meta=dict(shape='corpus-chain5-rerooted'))
 
 
+def _guard(fn):
+    """A case runner that cannot evaluate a case because navis hands back something unexpected (possible after an edit of navis,
+    never on the clean tree) records a broken correspondence with the exception instead of crashing the run."""
+    def wrapped(ctx, case):
+        try:
+            return fn(ctx, case)
+        except (KeyboardInterrupt, SystemExit):
+            raise
+        except Exception as e:
+            from .common import Timeout
+            if isinstance(e, (Timeout, RuntimeError)) and 'driver' in str(e).lower() + type(e).__name__.lower():
+                raise
+            if isinstance(e, Timeout):
+                raise
+            import traceback
+            ctx.corr(f'{type(e).__name__}: {str(e)[:160]} @ {traceback.format_exc().strip().splitlines()[-3].strip()[:120]}', 'evaluated',
+                     f'harness could not evaluate a {case.get("kind", "write")} case on the output of navis', case)
+    wrapped.__name__ = fn.__name__
+    return wrapped
+
+
 def run(ctx):
     ctx.extra['rule'] = ('write stream: forests from harness/gen.py (13 shape classes × 6 labelings × 3 row orders) × radius / soma / connector / '
                          'reroot / float32 decorations × label, connector, metadata, node-map and reader options; a case is non-trivial when the '
-                         'forest has ≥ 3 nodes; parse / nanrow / fmt streams: hand-made SWC text and file-name patterns; distinct by JSON digest')
+                         'forest has ≥ 3 nodes; the `header=` option (None / comment lines with and without final line break, CRLF, blank lines, Meta line '
+                         'first / middle / last, empty, non-ASCII, lines without #) is drawn for every write case; parse / nanrow / fmt streams: hand-made '
+                         'SWC text and file-name patterns; many: NeuronLists to folder / pattern / zip / pattern@zip / list / single→folder|zip; readopt: limit × '
+                         'include_subdirs × hidden / foreign files on folder, zip, tar; bigid: ids beyond int16 / int32 × precision; depths: _node_depths on '
+                         'arbitrary parent maps; distinct by JSON digest')
     ctx.extra['assumptions'] = ['decimal text of a float (Python repr / numpy str) is an injective encoding of the double; the Lean lexer reads it as an exact rational',
                                 'pandas read_csv / csv.writer / zipfile / tarfile are modelled (token level), not verified']
     r = ctx.rng
@@ -896,7 +1422,7 @@ def run(ctx):
     for k in range(nw):
         case = gen_write_case(r, small=(k % 4 == 0))
         case['kind'] = 'write'
-        if k % 12 == 0:
+        if k % 6 == 0:
             case['sources'] = True
             case['fmt'] = r.choice(FMTS)
             case['names'] = r.sample(FNAMES, r.randint(1, 3))
@@ -925,6 +1451,25 @@ def run(ctx):
         case = dict(gen_nanrow(r), kind='nanrow')
         ctx.case(case, nontrivial=True)
         case_nanrow(ctx, case)
+    for k in range(ctx.budget(24, 300)):
+        case = gen_many_case(r)
+        case['target'] = TARGETS[k % len(TARGETS)] if k < 2 * len(TARGETS) else case['target']
+        if case['target'].startswith('single'):
+            case['subs'] = case['subs'][:1]
+        ctx.case(case, nontrivial=True)
+        case_many(ctx, case)
+    for k in range(ctx.budget(30, 300)):
+        case = gen_readopt_case(r)
+        ctx.case(case, nontrivial=True)
+        case_readopt(ctx, case)
+    for k in range(ctx.budget(60, 600)):
+        case = gen_depths_case(r)
+        ctx.case(case, nontrivial=True)
+        case_depths(ctx, case)
+    for k in range(ctx.budget(30, 300)):
+        case = gen_bigid_case(r)
+        ctx.case(case, nontrivial=True)
+        case_bigid(ctx, case)
     ctx.notes += [
         'data rows of a written file end with \\r\\n (csv.writer default) while header lines end with \\n; the Lean lexer and pandas both accept it',
         'labels=<dict> is applied with swc.index.map(labels), i.e. keyed by the DataFrame index label, not by node_id as the docstring says; '
@@ -933,10 +1478,42 @@ def run(ctx):
         'the model order (sortByDepth); histogram historical_order_would_be counts the inputs on which the former parent_id sort was invalid',
         'export_connectors=True on a skeleton without connector table raises ValueError (x.presynapses); modelled as writeRaises',
         'a synapse label overrides the soma label on the same node (one label per node); counted, not flagged',
+        'write_swc(header=<str>) writes the string verbatim plus a final line break; write_meta is ignored then (documented): units / id come '
+        'back only if the header itself carries a Meta line among its leading # lines',
+        'write_swc(NeuronList | → zip, return_node_map=True) returns None (write_many / write_zip drop the maps); the round trip of list writes is '
+        'judged with the map of make_swc_table (same deterministic computation); histogram many_return',
+        'a blank-only line between data rows is a row without data for pandas (dropped by sanitise_nodes, orphans re-rooted), trailing blanks open one '
+        'more column: the Lean lexer follows this (fields of a line = runs of blanks as separators, a trailing run opens an empty field)',
+        'read_swc(path with *) raises FileNotFoundError in its sanity check although files_in_dir supports glob patterns (not part of the property)',
     ]
     if not ctx.quick():
         exhaustive_small(ctx)
         parallel_batch(ctx)
+        big_round_trip(ctx)
+
+
+def big_round_trip(ctx):
+    """A skeleton with more nodes than int16 holds, read back at every precision (the writer numbers the rows 1..N)."""
+    n = 33000
+    case = dict(kind='bign', n=n)
+    ctx.case(case, nontrivial=True)
+    ids = np.arange(1, n + 1, dtype=np.int64)
+    par = np.concatenate([[-1], ids[:-1]])
+    par[1::7] = np.maximum(ids[1::7] // 2, 1)          # some branching
+    par[0] = -1
+    df = pd.DataFrame(dict(node_id=ids, parent_id=par, x=(ids % 97).astype(float), y=(ids % 13).astype(float), z=0.5, radius=0.01))
+    x = navis.TreeNeuron(df, units='1 nm', name='big')
+    with Tmp() as d:
+        path = os.path.join(d, 'big.swc')
+        nmap = navis.write_swc(x, path, return_node_map=True)
+        nmap = {int(k): int(v) for k, v in nmap.items()}
+        for prec in (16, 32, 64):
+            z = navis.read_swc(path, precision=prec)
+            zp = dict(zip(z.nodes.node_id.values.tolist(), z.nodes.parent_id.values.tolist()))
+            ok = len(zp) == n and all(zp.get(nmap[int(i)]) == (nmap[int(p)] if p >= 0 else -1) for i, p in zip(ids, par))
+            ctx.oracle(ok, f'round trip of a {n}-node skeleton at precision={prec}: parent links differ under the node map '
+                       f'({len(z.root)} roots instead of 1)', case, signature='read_swc/precision/id-exceeds-int-range' if n >= 2 ** (prec - 1) else None)
+            ctx.count('big_round_trip', f'{prec}:{"ok" if ok else "ids-wrapped"}')
 
 
 def parallel_batch(ctx):
@@ -993,7 +1570,11 @@ def exhaustive_small(ctx):
     ctx.extra['exhaustive_small_scope'] = f'all forests on ≤5 labelled nodes (ids 1..n, every parent function without cycles): {cnt} skeletons written, parsed by the Lean parser, read back'
 
 
-RUNNERS = {'write': case_write, 'fmt': case_fmt, 'parse': case_parse, 'nanrow': case_nanrow, 'parallel': lambda ctx, case: parallel_batch(ctx)}
+case_write, case_fmt, case_parse, case_nanrow, case_many, case_readopt, case_bigid, case_depths = (
+    _guard(f_) for f_ in (case_write, case_fmt, case_parse, case_nanrow, case_many, case_readopt, case_bigid, case_depths))
+
+RUNNERS = {'write': case_write, 'fmt': case_fmt, 'parse': case_parse, 'nanrow': case_nanrow, 'parallel': lambda ctx, case: parallel_batch(ctx),
+           'many': case_many, 'readopt': case_readopt, 'bigid': case_bigid, 'depths': case_depths, 'bign': lambda ctx, case: big_round_trip(ctx)}
 
 
 def replay(ctx, rp):
